@@ -90,10 +90,31 @@ def join (a b : Bytes) : Bytes :=
   if a = [] then (if b = [] then [] else clean b)
   else clean (a ++ slash :: b)
 
-/-- `filepath.Dir` of a clean path -/
+/-- everything up to and including the last `/` -/
+def uptoLastSlash : Bytes → Bytes
+  | [] => []
+  | b :: bs =>
+    let r := uptoLastSlash bs
+    if r ≠ [] then b :: r else if b == slash then [b] else []
+
+/-- `filepath.Dir`: Clean of the part before the last separator -/
 def dirOf (p : Bytes) : Bytes :=
-  let stk := stack p
-  render (isAbs p) stk.dropLast
+  let d := uptoLastSlash p
+  if d = [] then dotSeg else clean d
+
+/-- FNV-1a 64 (hash/fnv.New64a) -/
+def fnv1a64 (bs : Bytes) : Nat :=
+  bs.foldl (fun h b => ((h ^^^ b.toNat) * 1099511628211) % 2 ^ 64) 14695981039346656037
+
+def hexDigit (n : Nat) : UInt8 := if n < 10 then UInt8.ofNat (48 + n) else UInt8.ofNat (87 + n)
+
+/-- `fmt.Sprintf("%x", n)` -/
+def hexOf : Nat → Nat → Bytes
+  | 0, _ => []
+  | fuel+1, n => if n < 16 then [hexDigit n] else hexOf fuel (n / 16) ++ [hexDigit (n % 16)]
+
+/-- `sidecarIdentifier`: the item id, or the hex FNV-1a hash of its path -/
+def sidecarIdent (id rel : Bytes) : Bytes := if id ≠ [] then id else hexOf 17 (fnv1a64 rel)
 
 /-- `base` is lexically inside (or equal to) `dir`: element-wise prefix of the cleaned stacks -/
 def Within (dir p : List Bytes) : Prop := ∃ ext, p = dir ++ ext
@@ -187,18 +208,21 @@ theorem splitOn_slash_refines (l : Bytes) (h : dotdot ∈ splitOn isSlash l) : d
     exact h
   · right; exact tl_refine l h
 
-theorem validate_noDotDot (maxLen : Nat) (p : Bytes) (h : validateRelPath maxLen p = none) : NoDotDot (segs p) := by
+theorem noParent_noDotDot (p : Bytes) (h : hasParentSeg p = false) : NoDotDot (segs p) := by
   intro s hs he
   subst he
   have := splitOn_slash_refines p hs
+  simp only [hasParentSeg, List.any_eq_false, beq_iff_eq] at h
+  exact h dotdot this rfl
+
+theorem validate_noDotDot (maxLen : Nat) (p : Bytes) (h : validateRelPath maxLen p = none) : NoDotDot (segs p) := by
+  apply noParent_noDotDot
   simp only [validateRelPath] at h
   split at h
   · cases h
   · split at h
     · cases h
-    · rename_i hn
-      simp only [hasParentSeg, List.any_eq_true, beq_iff_eq, not_exists, not_and] at hn
-      exact hn dotdot this rfl
+    · rename_i hn; simpa using hn
 
 /-! ### what the receiver touches -/
 
@@ -222,5 +246,68 @@ theorem within_trans {a b c : List Bytes} (h1 : Within a b) (h2 : Within b c) : 
   obtain ⟨e1, rfl⟩ := h1
   obtain ⟨e2, rfl⟩ := h2
   exact ⟨e1 ++ e2, by simp⟩
+
+/-! ### manifest validation and the receiver's effect paths -/
+
+structure Item where
+  rel : Bytes
+  isDir : Bool
+  id : Bytes
+  size : Nat
+  deriving DecidableEq, Repr
+
+structure Manifest where
+  root : Bytes
+  items : List Item
+  deriving DecidableEq, Repr
+
+/-- `ValidateManifest` (receiver side, before anything is created): the root has no `..` element, every
+    item path is a safe relative path, every non-empty id is a single path element -/
+def validateManifest (maxPath maxName : Nat) (m : Manifest) : Bool :=
+  !hasParentSeg m.root &&
+  m.items.all fun it =>
+    (validateRelPath maxPath it.rel).isNone && (it.id = [] || (validateFilename maxName it.id).isNone)
+
+/-- the path expression the receiver computes for an entry below its base directory:
+    `filepath.Join(filepath.Join(out, root), rel)` as one concatenation (nested Join = one Clean;
+    that identity is part of the filepath correspondence) -/
+def under (out root rel : Bytes) : Bytes := (out ++ slash :: root) ++ slash :: rel
+
+/-- elements a relative path contributes (`.` and empty dropped; no `..` after validation) -/
+def relStack (p : Bytes) : List Bytes := pushAll true [] (segs p)
+
+def prefixes {α : Type} : List α → List (List α)
+  | [] => [[]]
+  | x :: xs => [] :: (prefixes xs).map (x :: ·)
+
+structure Begin where
+  rel : Bytes
+  size : Nat
+  chunk : Nat
+  deriving DecidableEq, Repr
+
+/-- everything `RecvManifestMultiStream` creates below the output directory (as element stacks relative
+    to it), for a manifest that passed validation; `none` = rejected before any effect.
+    FileBegin records are handled in order until the first one that is refused. -/
+def recvCreates (maxPath maxName : Nat) (sidecarDir suffix : Bytes) (noRoot resume : Bool)
+    (m : Manifest) (begins : List Begin) : Option (List (List Bytes)) :=
+  if !validateManifest maxPath maxName m then none else
+  let base := if noRoot then [] else relStack m.root
+  let dirs := (m.items.filter (·.isDir)).map fun it => base ++ relStack it.rel
+  let rec files (bs : List Begin) (acc : List (List Bytes)) : List (List Bytes) :=
+    match bs with
+    | [] => acc
+    | b :: rest =>
+      if (validateRelPath maxPath b.rel).isSome then acc else
+      match m.items.find? (fun it => !it.isDir && it.rel == b.rel) with
+      | none => acc
+      | some it =>
+        if it.size ≠ b.size then acc else
+        let f := base ++ relStack b.rel
+        let side := if resume && b.chunk > 0 && (it.id ≠ [] || b.size > 0)
+          then [base ++ [sidecarDir], base ++ [sidecarDir, sidecarIdent it.id b.rel ++ suffix]] else []
+        files rest (acc ++ [f] ++ side)
+  let all := [base] ++ dirs ++ files begins []
+  some ((all.flatMap prefixes).eraseDups)
 
 end TV.Path
